@@ -202,6 +202,7 @@ def check_joint(ctx, cond, kw, p_x, M, b, Sy, mx, Sx, x, y, Rc, Rx):
     ctx.close("joint.mu", np.asarray(joint.mu), mu_ref)
     ctx.close("joint.Sigma", np.asarray(joint.Sigma), Sig_ref)
     coherent_pdf(ctx, "joint", joint)
+    objs.elementwise_matches(ctx, "joint.elementwise", joint, mu_ref, Sig_ref)
     # the joint is usable like any density: a marginal over a mixed (x, y) pair of coordinates and the x-marginal
     with ctx.guard("joint.then_marginal"):
         dims = [Dx - 1, Dx]
@@ -250,6 +251,7 @@ def check_marginal(ctx, cond, kw, p_x, M, b, Sy, mx, Sx, x, y, Rc, Rx):
     ctx.close("marginal.mu", np.asarray(p_y.mu), mu_ref)
     ctx.close("marginal.Sigma", np.asarray(p_y.Sigma), Sig_ref)
     coherent_pdf(ctx, "marginal", p_y)
+    objs.elementwise_matches(ctx, "marginal.elementwise", p_y, mu_ref, Sig_ref)
     # integral of p(y|x)p(x) dx from the identified quadratic of x -> ln cond(x)(y) + ln p(x)
     pts, _ = rm.lattice(Dx)
     with ctx.guard("marginal.integral_identity"):
